@@ -16,8 +16,9 @@ import (
 func c27Rune(name string) rune {
 	// one symbolic ASCII code point (printable, meta characters and control characters alike), or
 	// one of a few concrete non-ASCII ones: Latin-1 printable, Latin-1 non-printable, a non-printable
-	// beyond 0xFF, a supplementary-plane rune, the last valid code point
-	switch verifrt.Concretize(verifrt.IntRange(name+"Kind", 0, verifrt.Param("runeKinds", 1, 5))) {
+	// beyond 0xFF (thorough tier: kinds 0-3; the supplementary-plane rune and the last valid code point make
+	// regexp/syntax.calcFlags loop past the unwinding bound on a symbolic class and are not registered)
+	switch verifrt.Concretize(verifrt.IntRange(name+"Kind", 0, verifrt.Param("runeKinds", 1, 3))) {
 	case 0:
 		r := verifrt.Rune(name)
 		verifrt.Assume(r >= 0 && r <= 0x7F)
